@@ -392,7 +392,9 @@ def _check_set(ctx, r, set_, stack_tl, stack_attr, tag, t3=None, t4=None):
                     if "clear" in names and upd_ok and names.index("clear") < names.index("update"):
                         ctx.ok(t4, set_.qualname, "restores the four dicts on top of the stack in place (clear, then update from the snapshot)")
                     else:
-                        ctx.bad(t4, set_, n, "in-place restore does not clear the live dict and then copy the snapshot into it")
+                        ctx.bad(t4, set_, n, "the in-place rollback does not clear the live dict and then copy the snapshot into it: entries that the failed "
+                                "check overwrote (e.g. a broadcast-widened '*#name' binding) or deleted keep the value from the failed check",
+                                construct=f"in-place restore without clear()+update(snapshot): {short(n.body[0], 80)}")
     need(found, "set_shape_memo: no write to the top of the thread-local stack recognised (role lost / shape not recognised)")
     # guard: the write is control dependent on the has-memo test
     cfg = NoReturn(ctx.model).cfg(set_)
